@@ -35,7 +35,8 @@ func init() {
 	for _, id := range []string{"C02", "C03"} {
 		id := id
 		reg.Register(&reg.Check{ID: id, Level: map[string]string{"C02": "model_checking", "C03": "fault_enumeration"}[id],
-			Run:    func(r *ev.Run) { run(r, id) },
+			Run:    func(r *ev.Run) { describe(r); reg.Isolated(r, id, 3*time.Hour) },
+			Worker: func(a []string) int { r := ev.New(id, reg.Tier, map[string]string{"C02": "model_checking", "C03": "fault_enumeration"}[id]); run(r, id); return reg.WorkerExit(r) },
 			Replay: func(r *ev.Run, c json.RawMessage) { replayCase(r, id, c) }})
 	}
 }
@@ -461,9 +462,12 @@ func confs(thorough bool) []Conf {
 	return cs
 }
 
-func run(r *ev.Run, id string) {
+func describe(r *ev.Run) {
 	r.Rule("E1: BFS to fixpoint over the real range plugin on a real sqlite file (tmpfs). Ops: DISCOVER(m), REQUEST(m, hostname) for N+1 clients (one with an 8-byte chaddr) on ranges of N addresses, RESTART (Setup4 again on the same file) with the same and with another lease time; thorough adds pre-filled ranges (65 addresses with 63 bound: bitmap word boundary; a range ending at 255.255.255.255). State key = records + bitmap + lease time (hook H3) + ghost of the address first replied to each client. For C03 every state reached is a crash point: the DB file is copied and the real plugin started on the copy. Linear sweeps: ranges of 1..257 addresses filled to exhaustion; chaddr lengths 0..16 and hostile hostnames with a restart after each. Class = op/outcome.")
-	r.Assume("sqlite's own journal recovery (crash inside one SQL statement) and I/O errors are not modelled; the clock is only compared one-sidedly")
+	r.Assume("sqlite's own journal recovery (crash inside one SQL statement) and I/O errors are not modelled; the clock is only compared one-sidedly; the exploration runs in a worker process so that a fatal error of the code under test is reported, not suffered")
+}
+
+func run(r *ev.Run, id string) {
 	for _, c := range confs(!r.Quick()) {
 		c := c
 		res := explore.Explore(r, explore.Config[Op]{
@@ -525,6 +529,19 @@ func sweeps(r *ev.Run, id string) {
 			s.Close()
 			r.Add("sweep_ranges", 1)
 		}
+	}
+	if id == "C03" {
+		// a renewal after real time has passed must push the stored expiry forward: the clock
+		// cannot be controlled (time.Now is called directly), so this one history sleeps
+		c := Conf{Start: "10.0.0.10", End: "10.0.0.13", Lease: "60s"}
+		s := NewSys(r, id, c, true)
+		s.Apply(Op{Kind: "discover", MAC: "020000000a01"}, true)
+		time.Sleep(2100 * time.Millisecond)
+		s.Apply(Op{Kind: "request", MAC: "020000000a01"}, true)
+		s.Apply(Op{Kind: "restart", Lease: "60s"}, true)
+		s.crashCheck()
+		s.Close()
+		r.Add("renewal_after_real_delay", 1)
 	}
 	if id != "C03" && !thorough {
 		return
